@@ -289,6 +289,8 @@ def c06(prop, tier):
     jobs.append(Job("sparse-U32", "./constraint", ["prelude_sym.go", "prelude_elem_sym.go", "c06_sparse.go"], {"PKGNAME": "constraint", "ELEMTYPE": "U32", "ELEMFR": fr_pkg("tinyfield")}))
     if tier != "quick":
         jobs.append(Job("sparse-U64", "./constraint", ["prelude_sym.go", "prelude_elem_sym.go", "c06_sparse.go"], {"PKGNAME": "constraint", "ELEMTYPE": "U64", "ELEMFR": fr_pkg("bn254")}))
+    for f in (["bn254"] if tier == "quick" else CURVES):
+        jobs.append(Job("lro-" + f, "./constraint/" + f, ["prelude_sym.go", "prelude_fr_sym.go", "c06_lro.go"], {"PKGNAME": "cs", "FRPKG": fr_pkg(f)}))
     jobs.append(Job("levels", "./constraint", ["prelude_sym.go", "c06_levels.go"], {"PKGNAME": "constraint"}))
     jobs.append(Job("add-instruction", "./constraint", ["prelude_sym.go", "c06_addinst.go"], {"PKGNAME": "constraint"}))
     return run_property(prop, tier, jobs,
@@ -296,7 +298,7 @@ def c06(prop, tier):
                         design_ref="DESIGN.md §3 C06",
                         assumptions=["gnark-crypto field arithmetic implements a field (stubbed by the algebra model)", "frontend contract: the wire a row/gate defines occurs once, with a non-zero (static) coefficient",
                                      "level-builder contract: at most one unsolved wire per sparse gate; an R1C lists each unsolved wire once"],
-                        outside=["worker pool scheduling of run()", "hint functions", "GKR hints", "rows with more than 2 terms per linear expression"])
+                        outside=["worker pool scheduling of run()", "hint functions", "GKR hints", "rows with more than 2 terms per linear expression", "systems with more than 2 public inputs / 3 gates in the L,R,O layout harness"])
 
 
 def groth_subst(c):
@@ -412,11 +414,12 @@ def c02(prop, tier):
     for c in curves:
         jobs.append(Job("perm-" + c, "./backend/plonk/" + c, ["prelude_sym.go", "c02_perm.go"], {"PKGNAME": "plonk", "CURVE": c}))
         jobs.append(Job("verify-" + c, "./backend/plonk/" + c, ["prelude_sym.go", "prelude_fr_sym.go", "c08_plonk.go"], plonk_subst(c)))
+        jobs.append(Job("trace-" + c, "./backend/plonk/" + c, ["prelude_sym.go", "prelude_fr_sym.go", "c02_trace.go"], {"PKGNAME": "plonk", "CURVE": c, "FRPKG": fr_pkg(c)}))
     return run_property(prop, tier, jobs,
-                        title="C02 (verifier shape + key structure): PLONK Verify accepts only structurally complete proofs for every shape within the bounds; buildPermutation's cycles are exactly the classes of equal wires for every symbolic wiring (public placeholder and padding rows included).",
+                        title="C02 (verifier shape + key structure): PLONK Verify accepts only structurally complete proofs for every shape within the bounds; buildPermutation's cycles are exactly the classes of equal wires for every symbolic wiring (public placeholder and padding rows included); NewTrace (what Setup commits to): selector columns hold exactly the gates' coefficients (public rows -1,0,0,0,0; padding 0), Qcp is the indicator of the committed constraints, S1..S3 are the support u^c w^r read through S, for systems with 0..2 public inputs, 0..2 gates with symbolic wires and coefficient ids, an optional hint instruction, 0..1 commitment, domain size 4 with symbolic generator and shift (algebra model).",
                         design_ref="DESIGN.md §3 C02",
                         assumptions=["Setup invariants on the key", "opaque crypto stubs with gnark-crypto's length contracts"],
-                        outside=["KZG / AGM soundness", "the verifier's polynomial identities (algebra-model check planned)", "computePermutationPolynomials and commitTrace (FFT/MSM)", "the prover"])
+                        outside=["KZG / AGM soundness", "the verifier's polynomial identities (algebra-model check planned)", "commitTrace (KZG commitments of the columns)", "the prover"])
 
 
 def c20(prop, tier):
